@@ -29,3 +29,9 @@ LEVEL_TEXT = ("Deductive proof, unbounded in keys, values, capacities and operat
               "proof-level is right because the property is a data-structure invariant plus per-call functional postconditions.")
 DESIGN_REF = "5 (C12)"
 TECHNIQUE = "contract-based deductive verification (pyvc: AST -> VCs -> z3/cvc5), representation invariant COH+CAP"
+
+
+def bounded(tier, seed, pr):
+    from pyvc.boundedrun import run_bounded
+
+    return [run_bounded(pr, "b_lru.py", "lockstep_with_bare_store")]
